@@ -206,7 +206,9 @@ def writer_integers(prog, topo):
     subjects = (K("len(self.x_startinds)"), K("len(self.y_regions_noguards)"))
     for s in body:
         # a local that names one of the dispatch subjects (`n_x = len(self.x_startinds)`) is bound first
-        if isinstance(s, ast.Assign) and len(s.targets) == 1 and isinstance(s.targets[0], ast.Name) and T(mod, s.value) in subjects:
+        # (also an integer offset of it: `n_xsegments = len(self.x_startinds) - 1`)
+        if isinstance(s, ast.Assign) and len(s.targets) == 1 and isinstance(s.targets[0], ast.Name) and any(k in T(mod, s.value) for k in subjects) \
+                and all(isinstance(x, (ast.BinOp, ast.Add, ast.Sub, ast.Constant, ast.Call, ast.Name, ast.Attribute, ast.Load)) for x in ast.walk(s.value)):
             ex.stmt(s, env)
             continue
         if isinstance(s, ast.If) and any(k in T(mod, inline_temporaries(w.node, s.test, inline_calls=True)) for k in subjects):
